@@ -11,7 +11,7 @@ TInit == /\ l = 1 /\ bad = FALSE /\ tag = "none" /\ cur = <<>> /\ idx = 1 /\ lre
 IsStartEv == e.ev = "Open"
 Returned == e.out = "ret"
 Step == CASE e.ev = "Tok" -> Tok(e.kname, e.text, e.val)
-          [] e.ev = "Err" -> ErrRep(e.eof)
+          [] e.ev = "Err" -> ErrRep(e.eof, e.none)
           [] e.ev = "End" -> End
           [] OTHER -> FALSE
 
